@@ -517,6 +517,11 @@ impl<K, V, A: Allocator> CaoHashMap<K, V, A> {
 
     /// the hash the map computes for a key
     pub fn verif_hash<Q: ?Sized + Hash>(key: &Q) -> u64 {
+        hash(key)
+    }
+
+    /// the raw output of the map's hasher, before any adjustment
+    pub fn verif_raw_hash<Q: ?Sized + Hash>(key: &Q) -> u64 {
         let mut hasher = CaoHasher::default();
         key.hash(&mut hasher);
         hasher.finish()
